@@ -3,7 +3,7 @@
 to /repo's working tree (never committed), run `./check <ID> quick` (and `thorough`
 when quick misses and --thorough is given), restore /repo, and store patch, demo,
 meta and the result under /verif/seeded/<ID>/<n>/.
-usage: seedtest.py <ID> [--thorough] [--only n] [--also ID2,ID3]"""
+usage: seedtest.py <ID> [--thorough] [--only n] [--also ID2,ID3] [--round 2]"""
 import sys, os, subprocess, json, shutil, glob, time
 
 def sh(cmd, **kw):
@@ -31,14 +31,15 @@ def main():
     thorough = "--thorough" in sys.argv
     only = sys.argv[sys.argv.index("--only") + 1] if "--only" in sys.argv else None
     also = sys.argv[sys.argv.index("--also") + 1].split(",") if "--also" in sys.argv else []
-    src = "/tmp/seed-%s/out" % pid
+    rnd = sys.argv[sys.argv.index("--round") + 1] if "--round" in sys.argv else ""
+    src = "/tmp/seed%s-%s/out" % (rnd, pid)
     clean_repo()
     for d in sorted(glob.glob(src + "/*/")):
         n = os.path.basename(d.rstrip("/"))
         if only and n != only: continue
         patch = os.path.join(d, "patch.diff")
         if not os.path.exists(patch): print(pid, n, "no patch"); continue
-        dst = "/verif/seeded/%s/%s" % (pid, n)
+        dst = "/verif/seeded/%s/%s%s" % (pid, ("r%s-" % rnd) if rnd else "", n)
         os.makedirs(dst, exist_ok=True)
         shutil.copy(patch, dst)
         if os.path.exists(os.path.join(d, "meta.json")): shutil.copy(os.path.join(d, "meta.json"), dst)
